@@ -220,6 +220,24 @@ class Box:
         self.v = v
 
 
+class Requester:
+    """the party that registers waiting requests for script k; its bound method is the callback"""
+
+    def __init__(self, runner, k):
+        self.runner = runner
+        self.k = k
+        self.asked = []          # the request dictionaries handed in and not yet answered
+
+    def on_resources(self, manager, request):
+        r = self.runner
+        mine = [q for q in self.asked if q == request]
+        ok = manager is r.rm and bool(mine) and all(request is not q for q in self.asked)
+        if mine:
+            self.asked.remove(mine[0])
+        r.results.append(f'cb {self.k}' + ('' if ok else ' badargs'))
+        ScriptAction(r, self.k)()
+
+
 class FalsyOverride:
     """a per-object override action that is a callable OBJECT with a false truth value (legal: the
     scheduler must test for None, not for truthiness)"""
@@ -298,6 +316,7 @@ class FullRunner(Runner):
         self.wo_seq = {}
         self.records = []
         self.all_resv = []
+        self.requesters = {}
         self.n_assets = 0
         self.names = {}
         env = self.env
@@ -625,16 +644,15 @@ class FullRunner(Runner):
             a.merge(b)
             return 'ok'
         if op == 'register':
+            # the callback is a BOUND METHOD of the requester object of script k (one object per k): two
+            # registrations of one requester have equal, not identical, callbacks -- and each is an entry of its own
             k = int(toks[1])
             req = preq(toks[2], self.N)
-            runner = self
-
-            def cb(manager, request, k=k, req=req):
-                ok = manager is rm and request == req and request is not req
-                runner.results.append(f'cb {k}' + ('' if ok else ' badargs'))
-                ScriptAction(runner, k)()
-            cb.k = k
-            rm.reserve_resources_with_callback(req, cb)
+            who = self.requesters.get(k)
+            if who is None:
+                who = self.requesters[k] = Requester(self, k)
+            who.asked.append(req)
+            rm.reserve_resources_with_callback(req, who.on_resources)
             return 'ok'
         if op in ('schedfail', 'schedfailrel'):
             t = int(toks[2]) / self.tick
@@ -859,7 +877,7 @@ class FullRunner(Runner):
             items = []
             for req, cb in rm._waiting_requests:
                 s = getattr(cb, '__self__', None)
-                tag = f's{cb.k}' if hasattr(cb, 'k') else (f'p{self.didx(s)}' if s is not None else '?')
+                tag = f's{s.k}' if isinstance(s, Requester) else (f'p{self.didx(s)}' if s is not None else '?')
                 items.append(self.req_str(req) + '@' + tag)
             o.append('wq ' + ','.join(items))
         else:
